@@ -123,6 +123,10 @@ def opModel : J.Op := fun j => do
   let xpop ← J.fieldD j "x_pop" (J.list J.nat) []
   let nbest ← J.fieldD j "nbest" J.nat 1
   let patched ← J.fieldD j "patched" J.bool false
+  -- chunk sizes for the transcribed `_calc_ohvmat` loop (`null` = Python's None), weights of the real /
+  -- integer / binary encodings
+  let mems ← J.fieldD j "mems" (J.list (J.opt J.nat)) []
+  let xw ← J.fieldOpt j "xw" (J.list J.rat)
   -- layout (apportionment, labels, blocks) in binary64, values in exact rationals
   let exactLayout ← J.fieldD j "exact_layout" J.bool false
   let chroms := chromSlices genpos stix spix
@@ -132,7 +136,10 @@ def opModel : J.Op := fun j => do
   | .error e => pure (errJ e)
   | .ok (nblk, hbin, bnds) =>
     let ucols := ucolsOf u
-    let H := haplomat n bnds geno ucols
+    -- the haplotype matrix through the literally transcribed fill loop (= `haplomat`, `C18.fill_loop_eq_closed_form`)
+    match haplomatLoop n bnds geno ucols with
+    | .error e => pure (errJ e)
+    | .ok H =>
     let ntaxa := (geno.headD []).length
     let xm := xmap ntaxa nparent unique
     let ntrait := ucols.length
@@ -143,6 +150,19 @@ def opModel : J.Op := fun j => do
       (allSome (ohvmat.map (fun row => (row[t]?).join))).map (fun col => ohvLatent col xsel))
     let opvLat : List (Option Q) := perTrait.map (fun oV => oV.map (fun V => opvLatent V n xpop))
     let gbLat : List (Option Q) := perTrait.map (fun oV => oV.map (fun V => gbLatent V n xpop nbest))
+    -- `_calc_ohvmat` through the transcribed chunk loop, one matrix `[s][t]` per requested chunk size
+    let chunked : List Json := mems.map (fun mem =>
+      let cols : List (Except String (List (Option Q))) := perTrait.map (fun oV =>
+        match oV with
+        | none => .ok (xm.map (fun _ => none))
+        | some V => calcOhvmat V n xm mem)
+      match cols.find? (fun c => match c with | .error _ => true | .ok _ => false) with
+      | some (.error e) => errJ e
+      | _ => J.ofMat ofOptRat (Np.transpose (cols.map (fun c => match c with | .ok l => l | .error _ => []))))
+    let wLat : Json := match xw with
+      | none => Json.null
+      | some w => J.ofList ofOptRat ((List.range ntrait).map (fun t =>
+          (allSome (ohvmat.map (fun row => (row[t]?).join))).map (fun col => ohvLatentW col w)))
     pure <| J.obj [
       ("nblk", J.ofList J.ofNat nblk), ("hbin", J.ofList J.ofNat hbin),
       ("hstix", J.ofList J.ofNat (bnds.map Prod.fst)), ("hspix", J.ofList J.ofNat (bnds.map Prod.snd)),
@@ -151,7 +171,8 @@ def opModel : J.Op := fun j => do
       ("ohvmat", J.ofMat ofOptRat ohvmat),
       ("ohv_latent", J.ofList ofOptRat ohvLat),
       ("opv_latent", J.ofList ofOptRat opvLat),
-      ("gb_latent", J.ofList ofOptRat gbLat)]
+      ("gb_latent", J.ofList ofOptRat gbLat),
+      ("ohvmat_mem", Json.arr chunked.toArray), ("ohv_latent_w", wLat)]
 
 /-! ### the Spec oracle, evaluated on the implementation's outputs -/
 
@@ -187,30 +208,55 @@ def opSpec : J.Op := fun j => do
     let bnds := List.zip hstix hspix
     let hmats ← J.fieldD j "hmats" (J.list (J.list (J.list (J.mat J.rat)))) []
     cl := cl ++ [⟨"conserve", hmats.all (fun h => Spec.conserve geno ucols h n)⟩]
+    let sc := ucols.map (Spec.scaleOf geno)
     let xm? ← J.fieldOpt j "xmap" (J.mat J.nat)
     let ohvmat? ← J.fieldOpt j "ohvmat" (J.mat J.rat)
     if let (some xm, some ohvmat) := (xm?, ohvmat?) then
       let choices ← J.fieldD j "dh" (J.list (J.list pairs)) []
       cl := cl ++ [⟨"ohv_def", Spec.ohvDef geno ucols bnds xm ohvmat⟩,
                    ⟨"ohv_ge_dh", Spec.ohvGeDh geno ucols bnds xm ohvmat choices⟩]
+      -- the same matrix obtained through other entry points (other chunk sizes, the real / integer / binary
+      -- factories, the selection protocols): each must meet the definition
+      let more ← J.fieldD j "ohvmats" (J.list (J.mat J.rat)) []
+      if !more.isEmpty then
+        cl := cl ++ [⟨"ohv_def[entry]", more.all (fun o => Spec.ohvDef geno ucols bnds xm o)⟩,
+                     ⟨"ohv_ge_dh[entry]", more.all (fun o => Spec.ohvGeDh geno ucols bnds xm o (choices.take 1))⟩]
+      -- real / integer / binary encodings: weights, the problem's own ohvmat, its latent vector (parallel lists)
+      let xws ← J.fieldD j "xws" (J.list (J.list J.rat)) []
+      let wl ← J.fieldD j "ohv_latent_w" (J.list (J.list J.rat)) []
+      let wo ← J.fieldD j "ohvmat_w" (J.list (J.mat J.rat)) []
+      if !wl.isEmpty then
+        cl := cl ++ [⟨"ohv_latent_w_def", wl.length == wo.length && wl.length == xws.length &&
+          ((List.zip xws (List.zip wo wl)).all (fun p => Spec.ohvLatentWDef sc p.2.1 p.1 p.2.2))⟩]
     let x? ← J.fieldOpt j "x_pop" (J.list J.nat)
     let opv? ← J.fieldOpt j "opv_latent" (J.list J.rat)
     if let (some x, some opv) := (x?, opv?) then
       cl := cl ++ [⟨"opv_def", Spec.opvDef geno ucols bnds x opv⟩]
+    let opvs ← J.fieldD j "opv_latents" (J.list (J.list J.rat)) []
+    if let (some x, false) := (x?, opvs.isEmpty) then
+      cl := cl ++ [⟨"opv_def[entry]", opvs.all (fun o => Spec.opvDef geno ucols bnds x o)⟩]
     let xo? ← J.fieldOpt j "x_ohv" (J.list J.nat)
     let ol? ← J.fieldOpt j "ohv_latent" (J.list J.rat)
     if let (some xo, some ol, some ohvmat) := (xo?, ol?, ohvmat?) then
-      cl := cl ++ [⟨"ohv_latent_def", Spec.ohvLatentDef ohvmat xo ol⟩]
+      cl := cl ++ [⟨"ohv_latent_def", Spec.ohvLatentDef sc ohvmat xo ol⟩]
     let gb? ← J.fieldOpt j "gb_latent" (J.list J.rat)
     let nbest? ← J.fieldOpt j "nbest" J.nat
     if let (some x, some gb, some nbest) := (x?, gb?, nbest?) then
       cl := cl ++ [⟨"gb_def", Spec.gbDef geno ucols bnds x nbest gb⟩]
+    let gbs ← J.fieldD j "gb_latents" (J.list (J.list J.rat)) []
+    if let (some x, some nbest, false) := (x?, nbest?, gbs.isEmpty) then
+      cl := cl ++ [⟨"gb_def[entry]", gbs.all (fun o => Spec.gbDef geno ucols bnds x nbest o)⟩]
   let failed := (cl.filter (fun c => !c.ok)).map (·.name)
   pure <| J.obj [("ok", J.ofBool failed.isEmpty), ("failed", J.ofList J.ofStr failed),
                  ("checked", J.ofList J.ofStr (cl.map (·.name)))]
 
+/-- returns its `value` field verbatim: the harness memoises answers of requests it has already sent in the
+    same process (the self-test re-evaluates the same cases under every mutant) and sends them back through this
+    op so that the answer stream stays aligned with the request stream -/
+def opConst : J.Op := fun j => J.field j "value" pure
+
 def ops : List (String × J.Op) :=
-  [("c18.nblk", opNblk), ("c18.haplobin", opHaplobin), ("c18.bounds", opBounds),
+  [("c18.const", opConst), ("c18.nblk", opNblk), ("c18.haplobin", opHaplobin), ("c18.bounds", opBounds),
    ("c18.model", opModel), ("c18.spec", opSpec)]
 
 end Drv.C18
